@@ -27,6 +27,8 @@ import (
 	"time"
 
 	"github.com/dgraph-io/badger/v4"
+
+	"github.com/mimiro-io/datahub/internal/verifhook"
 )
 
 type fullSyncLease struct {
@@ -223,12 +225,15 @@ func (ds *Dataset) StoreEntities(entities []*Entity) (Error error) {
 		return nil
 	}
 
+	verifhook.Acquire("ds", ds.ID)
 	ds.WriteLock.Lock()
+	verifhook.Acquired("ds", ds.ID)
 	writeLockStart := time.Now()
 	// release lock at end regardless
 	defer func() {
 		_ = ds.store.statsdClient.Timing("ds.writeLock.time", time.Since(writeLockStart), tags, 1)
 		ds.WriteLock.Unlock()
+		verifhook.Release("ds", ds.ID)
 	}()
 
 	// need this to ensure time moves forward in high perf environments.
@@ -243,20 +248,24 @@ func (ds *Dataset) StoreEntities(entities []*Entity) (Error error) {
 		return err
 	}
 
+	verifhook.Point("store.beforeIDCommit")
 	err = ds.store.commitIDTxn()
 	if err != nil {
 		return err
 	}
+	verifhook.Point("store.afterIDCommit")
 
 	err = txn.Commit()
 	if err != nil {
 		return err
 	}
+	verifhook.Point("store.afterCommit")
 
 	err = ds.updateDataset(newitems, entities)
 	if err != nil {
 		return err
 	}
+	verifhook.Point("store.afterUpdateDataset")
 
 	return nil
 }
